@@ -18,8 +18,8 @@ def main():
     factdir, th, _ = facts.ensure_facts("quick")
     out = {"_tree": th}
     for fn in sorted(os.listdir(factdir)):
-        if not fn.endswith(".json"):
-            continue
+        if not fn.endswith(".json") or not any(k in fn for k in ("-rlib-", "-cdylib", "-procmacro")):
+            continue                       # library targets only (what the quick tier analyses); test / bin targets are not anchors
         C = facts.load(factdir, fn)
         crate = fn.split("--")[0]
         d = out.setdefault(crate, {})
@@ -28,6 +28,7 @@ def main():
             if "::tests::" in p or "::test::" in p or "{" in p or not f.get("body"):
                 continue
             d[p] = C.fingerprint(f)
+        d["__adts__"] = sorted(set(d.get("__adts__", [])) | {a["path"] for a in C.adts if "::tests::" not in a["path"]})
     p = os.path.join(VERIF, "rules", "anchors_ref.json")
     with open(p, "w") as fh:
         json.dump(out, fh, separators=(",", ":"), sort_keys=True)
